@@ -79,13 +79,10 @@ def finishChildren (g : GSpec) (raw : List DNA) : M Pop := do
   let outs ← setOrder outs
   forEachM mkChild outs
 
-/-- `where.Any(k=1)`: all points if there is at most one, else one sampled index. -/
-def pickPoint (n : Nat) : M Nat :=
-  if n ≤ 1 then pure 0
-  else nextSample n 1 >>= fun is =>
-    match is with
-    | [t] => pure t
-    | _ => fail .desync
+/-- `where.Any(k)`: all points if `k >= len`, else `sorted(random.sample(range(len), k))`. -/
+def pickPoints (n k : Nat) : M (List Nat) :=
+  if k ≥ n then pure (List.range n)
+  else nextSample n k >>= fun is => pure (sortNats is)
 
 /-- the four (parent × proposal) trees: a point below a chosen candidate (`none`) is never looked at by
 `from_dict` (it takes the enclosing node whole); at root element `j` each parent's own entries are
@@ -104,22 +101,27 @@ def place (loc : Option Nat) (x y : DNA) (c0 c1 : List Nat) : M (List DNA) :=
       | _, _, _, _ => fail .key
     | _, _ => fail .desync
 
-/-- `Permutation.recombine` for a `permutate` method given as a function of the two decision lists. -/
-def permProposals (permute : List Nat → List Nat → M (List Nat × List Nat)) (pts : List PermPoint)
+/-- `Permutation.recombine` for a `permutate` method given as a function of the two decision lists:
+for every selected permutation point, in order, the proposals are placed into fresh copies of the
+parents' dictionaries. -/
+def permProposals (permute : List Nat → List Nat → M (List Nat × List Nat)) (k : Nat) (pts : List PermPoint)
     (x y : DNA) : M (List DNA) :=
-  pickPoint pts.length >>= fun t =>
-    match pts[t]? with
-    | none => fail .desync
-    | some (loc, vx, vy) => permute vx vy >>= fun cs => place loc x y cs.1 cs.2
+  pickPoints pts.length k >>= fun ts =>
+    forEachM (fun t =>
+      match pts[t]? with
+      | none => fail .desync
+      | some (loc, vx, vy) => permute vx vy >>= fun cs => place loc x y cs.1 cs.2) ts >>= fun ls =>
+    pure ls.flatten
 
-def recPerm (permute : List Nat → List Nat → M (List Nat × List Nat)) (g : GSpec) : Op := fun pop =>
+/-- `k` is the `k` of the `where.Any(k)` filter (1 by default). -/
+def recPerm (permute : List Nat → List Nat → M (List Nat × List Nat)) (k : Nat) (g : GSpec) : Op := fun pop =>
   match pop with
   | [x, y] =>
     if !popAligned pop then fail .unmodelled
-    else if (permPoints g x.dna y.dna).isEmpty then pure pop        -- `return parents`
     else do
-      let raw ← permProposals permute (permPoints g x.dna y.dna) x.dna y.dna
-      finishChildren g raw
+      let raw ← permProposals permute k (permPoints g x.dna y.dna) x.dna y.dna
+      if raw.isEmpty then pure pop                     -- no point selected: `return parents`
+      else finishChildren g raw
   | _ => fail .value
 
 /-- the two cut points of Order / PMX: `sorted(random.sample(range(size), 2))` (one draw: two distinct
@@ -135,7 +137,7 @@ def cutPoints (size : Nat) : M (Nat × Nat) :=
 def permuteOrder (vx vy : List Nat) : M (List Nat × List Nat) :=
   cutPoints vx.length >>= fun se => pure (orderChild vx vy se.1 se.2, orderChild vy vx se.1 se.2)
 
-def recOrder (g : GSpec) : Op := recPerm permuteOrder g
+def recOrder (g : GSpec) : Op := recPerm permuteOrder 1 g
 
 /-! ### Partially mapped crossover (recombinators.py:852-902) -/
 
@@ -177,7 +179,7 @@ def permutePMX (vx vy : List Nat) : M (List Nat × List Nat) :=
     | some c0, some c1 => pure (c0, c1)
     | _, _ => fail .key
 
-def recPMX (g : GSpec) : Op := recPerm permutePMX g
+def recPMX (g : GSpec) : Op := recPerm permutePMX 1 g
 
 /-! ### Cycle crossover (recombinators.py:960-1009) -/
 
@@ -228,6 +230,6 @@ def permuteCycle (vx vy : List Nat) : M (List Nat × List Nat) :=
     | some c0, some c1 => pure (c0, c1)
     | _, _ => fail .key
 
-def recCycle (g : GSpec) : Op := recPerm permuteCycle g
+def recCycle (g : GSpec) : Op := recPerm permuteCycle 1 g
 
 end Pg.C14
